@@ -1231,7 +1231,7 @@ pub fn check_c12(sum: &mut Summary) {
             _ => Some("serde::Serialize, serde::Deserialize".to_string()),
         };
         let sort = match r.below(3) { 0 => None, 1 => Some("unsorted".to_string()), _ => Some("name".to_string()) };
-        let output = match r.below(7) { 0 | 1 => OutKind::Stdout, 2 => OutKind::NewFile, 3 => OutKind::Existing(if r.chance(1, 2) { "previous content\n".into() } else { "// previous content, longer than anything this run will write\n".repeat(400) }), 4 => OutKind::MissingDir, 5 => OutKind::IsDirectory, _ => OutKind::SameAsInput };
+        let output = match r.below(8) { 0 | 1 => OutKind::Stdout, 2 => OutKind::NewFile, 3 => OutKind::Existing(if r.chance(1, 2) { "previous content\n".into() } else { "// previous content, longer than anything this run will write\n".repeat(400) }), 4 => OutKind::MissingDir, 5 => OutKind::IsDirectory, 6 => OutKind::SameAsInput, _ => OutKind::Derived((*r.pick(&["identical", "crlf", "half", "extra-newline"])).to_string()) };
         if i == 0 {
             cases.push(CliCase { input: InputKind::Bytes(xml.clone().into_bytes()), label: "valid".into(), parser: None, derive: None, sort: None, output: OutKind::Stdout });
         }
